@@ -1,6 +1,126 @@
 /-
-  C12 — property theorems (placeholder: no theorem yet, the property is not claimed).
+  C12 — Colours survive the trip through their raw representation.
+
+  Property theorems only (helper lemmas: EG/Lemmas/Color.lean). All statements are about the model
+  `EG.Model.Color` (the bodies of `impl_raw_data!`, `impl_rgb_color!`, `gray_color!`, `BinaryColor`,
+  `IntoStorage`, `ToBytes`, written once over a `ColorSpec`) and quantify over the table
+  `EG.Generated.colorTable` that tools/tr_color.py regenerates from the Rust sources on every run,
+  and over ALL values (colour values `c`, channel arguments, raw values): the proofs are arithmetic
+  (`omega` per generated record after turning masks and shifts into `%`, `*`, `/`; the `|||` of the
+  three channel fields is turned into `+` by a generic lemma for any well-formed layout). Nothing is
+  enumerated except the table itself.
+
+  A colour value is the number its Rust value holds (`ColorSpec.Valid`): the storage integer of an
+  RGB struct, the inner raw value of a gray struct, `0`/`1` for `BinaryColor::Off`/`On`.
+  Raw values are inner values of the raw newtypes, which are always `< 2^BITS_PER_PIXEL`
+  (`raw_from_u32_fits`: every public constructor masks).
 -/
-import EG.Basic.Core
+import EG.Lemmas.Color
 namespace EG.C12
+open EG EG.Generated EG.ColorSpec
+
+/-! ### the generated table is what the translator saw in the source, and every record is a sound layout -/
+
+/-- Table sizes equal the numbers of macro invocations the translator counted in the source. -/
+theorem table_counts :
+    (colorTable.filter (·.isRgb)).length = seenRgbTypes
+    ∧ (colorTable.filter (·.kind == .gray)).length = seenGrayTypes
+    ∧ (colorTable.filter (·.kind == .binary)).length = seenBinaryTypes
+    ∧ colorTable.length = seenRgbTypes + seenGrayTypes + seenBinaryTypes
+    ∧ rawTable.length = seenRawTypes := by decide
+
+/-- Every record: supported raw shape, channels at most 8 bits, the three fields adjacent and disjoint
+from bit 0, inside `BITS_PER_PIXEL` and inside the struct's storage integer, byte views of the
+declared length covering `BITS_PER_PIXEL`; RGB types carry red in the most significant field, BGR
+types blue (`layout_documented` spells this last part out). -/
+theorem table_wellFormed : ∀ s ∈ colorTable, s.WellFormed = true := Color.table_wellFormed
+
+/-- The documented storage layout: RGB types have blue at bit 0, green above it and red on top
+(most significant); BGR types have red at bit 0 and blue on top. -/
+theorem layout_documented : ∀ s ∈ colorTable,
+    (s.kind = .rgb → s.bpos = 0 ∧ s.gpos = s.bbits ∧ s.rpos = s.bbits + s.gbits)
+    ∧ (s.kind = .bgr → s.rpos = 0 ∧ s.gpos = s.rbits ∧ s.bpos = s.rbits + s.gbits) := by decide
+
+/-! ### `new(r, g, b)` keeps each channel modulo its width; `r()/g()/b()/luma()` return it -/
+
+theorem new_channels : ∀ s ∈ colorTable, s.isRgb = true → ∀ r g b, r < 256 → g < 256 → b < 256 →
+    s.chanR (s.rgbNew r g b) = r % 2 ^ s.rbits ∧ s.chanG (s.rgbNew r g b) = g % 2 ^ s.gbits
+      ∧ s.chanB (s.rgbNew r g b) = b % 2 ^ s.bbits := Color.new_channels
+
+theorem gray_new_luma : ∀ s ∈ colorTable, s.kind = .gray → ∀ l, l < 256 →
+    s.luma (s.grayNew l) = l % 2 ^ s.rawBpp := Color.gray_new_luma
+
+/-- The value built by `new` — and the raw value it converts to — is the reduced channels at their
+bit positions (with `layout_documented`: red-high for RGB, blue-high for BGR). -/
+theorem new_layout : ∀ s ∈ colorTable, s.isRgb = true → ∀ r g b,
+    s.rgbNew r g b = r % 2 ^ s.rbits * 2 ^ s.rpos + g % 2 ^ s.gbits * 2 ^ s.gpos + b % 2 ^ s.bbits * 2 ^ s.bpos
+    ∧ s.toRaw (s.rgbNew r g b) = s.rgbNew r g b := Color.new_layout
+
+/-! ### which numbers are colour values: everything the constructors return, and nothing else matters -/
+
+theorem new_valid : ∀ s ∈ colorTable, s.isRgb = true → ∀ r g b, s.Valid (s.rgbNew r g b) := Color.new_valid
+theorem gray_new_valid : ∀ s ∈ colorTable, s.kind = .gray → ∀ l, s.Valid (s.grayNew l) := Color.grayNew_valid
+theorem from_raw_valid : ∀ s ∈ colorTable, ∀ raw, raw < 2 ^ s.rawBpp → s.Valid (s.fromRaw raw) := Color.fromRaw_valid
+/-- `RawData::from_u32` (hence `Raw::new`, `Raw::from`) returns a value below `2^BITS_PER_PIXEL`
+for every `u32` argument, including arguments with bits set beyond the storage type. -/
+theorem raw_from_u32_fits : ∀ s ∈ colorTable, ∀ v, s.rawFromU32 v < 2 ^ s.rawBpp := Color.rawFromU32_lt
+
+/-- Every value of an RGB type is `new` of its own channels (so the channels determine the colour). -/
+theorem valid_eq_new : ∀ s ∈ colorTable, s.isRgb = true → ∀ c, s.Valid c →
+    c = s.rgbNew (s.chanR c) (s.chanG c) (s.chanB c)
+    ∧ s.chanR c < 2 ^ s.rbits ∧ s.chanG c < 2 ^ s.gbits ∧ s.chanB c < 2 ^ s.bbits := Color.valid_eq_new
+
+/-! ### colour -> raw -> colour is the identity; the raw value fits; raw -> colour -> raw is idempotent -/
+
+theorem raw_roundtrip : ∀ s ∈ colorTable, ∀ c, s.Valid c → s.fromRaw (s.toRaw c) = c := Color.raw_roundtrip
+
+theorem into_fits : ∀ s ∈ colorTable, ∀ c, s.Valid c → s.toRaw c < 2 ^ s.rawBpp := Color.into_fits
+
+/-- raw -> colour -> raw keeps the low `usedBits` bits (the channel fields: `rbits+gbits+bbits` for
+RGB/BGR types, all of `BITS_PER_PIXEL` otherwise) and clears exactly the bits above them. -/
+theorem raw_clears_unused_only : ∀ s ∈ colorTable, ∀ raw, raw < 2 ^ s.rawBpp →
+    s.toRaw (s.fromRaw raw) = raw % 2 ^ s.usedBits := Color.raw_clears_unused_only
+
+theorem raw_idempotent : ∀ s ∈ colorTable, ∀ raw, raw < 2 ^ s.rawBpp →
+    s.toRaw (s.fromRaw (s.toRaw (s.fromRaw raw))) = s.toRaw (s.fromRaw raw) := Color.raw_idempotent
+
+/-! ### `into_storage`, `to_be_bytes`, `to_le_bytes` describe the same value -/
+
+/-- `into_storage` is the raw value; the big-endian reading of `to_be_bytes` and the little-endian
+reading of `to_le_bytes` both give it back (for `RawU24`: the 3 of the 4 `u32` bytes that are kept
+lose nothing); both have `size_of::<Bytes>()` entries, each a byte, one the reverse of the other. -/
+theorem storage_bytes_agree : ∀ s ∈ colorTable, ∀ c, s.Valid c →
+    s.intoStorage c = s.toRaw c
+    ∧ ofBe (s.toBeBytes c) = s.intoStorage c ∧ ofLe (s.toLeBytes c) = s.intoStorage c
+    ∧ (s.toBeBytes c).length = s.nbytes ∧ (s.toLeBytes c).length = s.nbytes
+    ∧ s.toBeBytes c = (s.toLeBytes c).reverse
+    ∧ (∀ x ∈ s.toBeBytes c, x < 256) := Color.storage_bytes_agree
+
+/-! ### non-vacuity: concrete instances of the hypotheses -/
+
+/-- `Bgr565` is in the table, is an RGB-kind type, `0xF81F` is one of its values, and `0xFFFF` is a
+raw value whose round trip is observable. -/
+example : ∃ s ∈ colorTable, s.name = "Bgr565" ∧ s.isRgb = true ∧ s.Valid 0xF81F
+    ∧ s.rgbNew 255 0 33 = 0x081F ∧ s.chanB 0x081F = 1 ∧ (0xFFFF : Nat) < 2 ^ s.rawBpp :=
+  ⟨_, List.mem_of_elem_eq_true (by decide : colorTable.elem
+      { name := "Bgr565", kind := .bgr, rawName := "RawU16", rawBpp := 16, rawStorageBits := 16, nbytes := 2,
+        beLo := 0, beHi := 2, leLo := 0, leHi := 2, storageBits := 16, rbits := 5, gbits := 6, bbits := 5,
+        rpos := 0, gpos := 5, bpos := 11 } = true), by decide⟩
+
+/-- a type with unused bits: `Rgb555` clears bit 15 of a raw value; `Gray4` is a gray type -/
+example : ∃ s ∈ colorTable, s.name = "Rgb555" ∧ s.toRaw (s.fromRaw 0xFFFF) = 0x7FFF ∧ s.usedBits = 15 :=
+  ⟨_, List.mem_of_elem_eq_true (by decide : colorTable.elem
+      { name := "Rgb555", kind := .rgb, rawName := "RawU16", rawBpp := 16, rawStorageBits := 16, nbytes := 2,
+        beLo := 0, beHi := 2, leLo := 0, leHi := 2, storageBits := 16, rbits := 5, gbits := 5, bbits := 5,
+        rpos := 10, gpos := 5, bpos := 0 } = true), by decide⟩
+
+example : ∃ s ∈ colorTable, s.kind = .gray ∧ s.Valid 9 ∧ s.grayNew 0xF9 = 9 := by
+  refine ⟨_, List.mem_of_elem_eq_true (by decide : colorTable.elem
+      { name := "Gray4", kind := .gray, rawName := "RawU4", rawBpp := 4, rawStorageBits := 8, nbytes := 1,
+        beLo := 0, beHi := 1, leLo := 0, leHi := 1, storageBits := 8, rbits := 0, gbits := 0, bbits := 0,
+        rpos := 0, gpos := 0, bpos := 0 } = true), by decide⟩
+
+-- Not part of the property text and not modelled: `to_ne_bytes` (host byte order; the harness oracle
+-- checks it equals `to_le_bytes` on the little-endian host it runs on).
+
 end EG.C12
